@@ -327,6 +327,9 @@ func (d *Decoder) unmarshal(val reflect.Value, tagType byte) error {
 		if err != nil {
 			return err
 		}
+		if listType > TagLongArray {
+			return fmt.Errorf("unknown Tag %#02x as list element type", listType)
+		}
 		listLen, err := d.readInt32()
 		if err != nil {
 			return err
@@ -614,6 +617,9 @@ func (d *Decoder) rawRead(tagType byte) error {
 		listType, err := d.r.ReadByte()
 		if err != nil {
 			return err
+		}
+		if listType > TagLongArray {
+			return fmt.Errorf("unknown Tag %#02x as list element type", listType)
 		}
 		listLen, err := d.readInt32()
 		if err != nil {
